@@ -113,6 +113,9 @@ class Module:
         self.classes = {}      # name -> dict(node, bases, methods{name->Func})
         self.globals = {}      # name -> value node (module level simple assigns)
         self.forbidden = []    # (lineno, what)
+        # module-level names that some function rebinds under a `global` statement: mutable module state even when the
+        # initial value is a constant (`_cache = None`)
+        self.rebound_globals = {nm for n_ in ast.walk(self.tree) if isinstance(n_, ast.Global) for nm in n_.names}
         self._scan()
 
     def _scan(self):
@@ -138,7 +141,7 @@ class Module:
         add = lambda what: self.forbidden_in.append((n.lineno, what, owner))
         if isinstance(n, ast.Call) and isinstance(n.func, ast.Name) and n.func.id in FORBIDDEN_CALLS:
             add(n.func.id + "()")
-        elif isinstance(n, (ast.Global, ast.Nonlocal, ast.Yield, ast.YieldFrom, ast.AsyncFunctionDef, ast.Await)):
+        elif isinstance(n, (ast.Nonlocal, ast.Yield, ast.YieldFrom, ast.AsyncFunctionDef, ast.Await)):
             add(type(n).__name__)
         elif isinstance(n, ast.Attribute) and n.attr in ("__dict__", "__class__", "__globals__"):
             add("." + n.attr)
